@@ -1629,8 +1629,7 @@ def check_C17(ctx):
             if rng.random() < 0.5:
                 h.s.op(0, 'set_last_len', rng.randint(2, 8))
         w = dict(var=4, apply=8, ite=2, quantify=1, cofactor=1, rename=1, compose=1, hold=5,
-                 release=1, gc=1, swap=(0 if dyn else 1), sift=(0 if dyn else 0.5),
-                 order=(0 if dyn else 0.5))
+                 release=1, gc=1, swap=1, sift=0.5, order=0.5)
         inject_at = sorted(rng.sample(range(60), rng.randint(2, 6)))
         for i in range(rng.randint(15, 60)):
             if i in inject_at:
@@ -1688,6 +1687,10 @@ def check_C17(ctx):
                     if r is None or TT(b, univ).of(r) != want:
                         ctx.violation(f'operation after a failed call ({label}) is wrong', dict(
                             lines=list(h.s.lines), tags=dict(call='after-failed:' + label)))
+            elif dyn and rng.random() < 0.04:
+                # the switch is turned off and on again in the middle of the history
+                h.s.op(0, 'configure', rng.randint(0, 1))
+                ctx.count('op:configure')
             else:
                 h.step(w)
                 h.prune()
